@@ -303,9 +303,13 @@ def mutate_key(r, key: str, pipe):
     elif k == 6:
         parts = parts[:r.randrange(1, len(parts))]
         kind = "truncated"
-    elif k == 7:
+    elif k == 7 and r.random() < 0.5:
         parts = parts + [r.choice(["x", "value", "arguments", "enabled", "level", "0", "keys", "name"])]
         kind = "extended"
+    elif k == 7:   # a junk component somewhere inside the key (everything around it is right)
+        i = r.randrange(1, len(parts))
+        parts = parts[:i] + [r.choice(["x", "zz", "arguments", "value", "k", "item", parts[i - 1]])] + parts[i:]
+        kind = "inserted_component"
     elif k == 8:  # a prefix / extension of the model or argument name (string-prefix confusion)
         i = r.randrange(len(parts))
         c = parts[i]
@@ -628,7 +632,14 @@ def gen_validate_cases(ctx: Ctx, budget: int):
                 kinds.append(kind)
         if not keys:
             continue
-        cases.append(dict(op="validate", det=det, pipe=pipe, keys=keys, kinds=kinds, step_enabled=[True] * len(keys)))
+        c = dict(op="validate", det=det, pipe=pipe, keys=keys, kinds=kinds, step_enabled=[True] * len(keys))
+        if len(cases) % 3 == 0:
+            # also run the sweep itself (every model is the probe `verif_probes_c08.record`): with a bad key among the
+            # steps it must fail before any model executes
+            c["run"] = True
+            c["mode"] = r.choice(["product", "sequential"])
+            c["pipe"] = {g: [dict(m, func="verif_probes_c08.record") for m in ms] for g, ms in pipe.items()}
+        cases.append(c)
     return cases
 
 
@@ -733,17 +744,25 @@ def emit_validate_file(pairs) -> str:
     items = []
     for c, o in pairs:
         keys = [k for k, en in zip(c["keys"], c["step_enabled"]) if en]
+        ran = o.get("ran")
+        if ran is None:
+            cran = "None"
+        elif "ok" in ran:
+            cran = f"(Some (None, {core.cnat(ran['ok'])}))"
+        else:
+            cran = f"(Some (Some {ran['raise']}, {core.cnat(ran['calls'])}))"
         items.append(f"{{| v_tree := {pool.tree(o['before'])}; v_keys := {core.clist(core.cstr(k) for k in keys)}; "
-                     f"v_obs := {core.copt(o['validate'], str)} |}}")
+                     f"v_obs := {core.copt(o['validate'], str)}; v_ran := {cran} |}}")
     body = ";\n  ".join(items)
     return (HEADER + "\n".join(pool.defs) + f"\nDefinition cases : list vcase := [\n  {body}\n].\n"
-            "Eval vm_compute in v_mismatches cases.\nEval vm_compute in v_violations 1 cases.\nEval vm_compute in v_violations 2 cases.\n")
+            "Eval vm_compute in v_mismatches cases.\nEval vm_compute in v_violations 1 cases.\nEval vm_compute in v_violations 2 cases.\n"
+            "Eval vm_compute in v_violations 3 cases.\n")
 
 
 # ------------------------------------------------------------------------------------------ classification (signature only)
 
 CLAUSES = {1: "unresolved_rejected", 2: "failed_set_changes", 3: "frame", 4: "set_get", 5: "has_sound",
-           6: "derived_source_changed", 7: "derived_sibling_changed", 8: "derived_later_copy_differs"}
+           6: "derived_source_changed", 7: "derived_sibling_changed", 8: "derived_later_copy_differs", 9: "get_sound"}
 
 
 def walk_info(tree, key: str):
@@ -823,7 +842,8 @@ def set_violation(c, o, clause_n) -> Violation:
                                2: "a refused assignment changes no setting",
                                3: "exactly the addressed existing setting takes the denoted value; no attribute appears or disappears",
                                4: "get(key) returns the assigned value",
-                               5: "has() confirms only existing paths"}[clause_n],
+                               5: "has() confirms only existing paths",
+                               9: "get() answers only for a key whose whole path exists"}[clause_n],
                      what=f"Processor.{c['path']}({c['key']!r}, {json.dumps(c['value'])[:80]}) on a {c['det']} processor: {clause} "
                           f"(key lands on {landing}, last component names: {target})", sig=sig)
 
@@ -862,7 +882,7 @@ def leg_set(ctx: Ctx, cases, tag="s"):
                                          f"model and implementation differ on {part} for key {c['key']!r}",
                                          dict(case={k: c[k] for k in ("det", "pipe", "key", "value", "path", "kind")},
                                               observed=dict(has=o["has"], set=o["set"], get=o["get"]))))
-            for n in range(1, 6):
+            for n in (1, 2, 3, 4, 5, 9):
                 if mask & (1 << (n - 1)):
                     ctx.violations.append(set_violation(c, o, n))
     for c, o in pairs:
@@ -913,7 +933,7 @@ def leg_derive(ctx: Ctx, cases, tag="w"):
                                               observed=dict(has=o["has"], set=o["set"], get=o["get"], shared=o["shared"]))))
                 if o["shared"]:
                     leads.append((c, o))
-            for n in range(1, 9):
+            for n in range(1, 10):
                 if mask & (1 << (n - 1)):
                     ctx.violations.append(set_violation(c, o, n))
     for c, o in pairs:
@@ -1008,7 +1028,7 @@ def leg_validate(ctx: Ctx, cases, tag="v"):
     for k, name in enumerate(sorted(files)):
         ok, evals, se = res[name]
         chunk = pairs[k * per:(k + 1) * per]
-        if not ok or len(evals) != 3:
+        if not ok or len(evals) != 4:
             ctx.broken.append(Broken("correspondence", f"case file {name}.v did not evaluate", core.tail(se, 15)))
             continue
         for i in core.parse_int_list(evals[0]):
@@ -1016,12 +1036,16 @@ def leg_validate(ctx: Ctx, cases, tag="v"):
             ctx.broken.append(Broken("correspondence", "Model/Keys.v validate_steps vs Observation.validate_steps",
                                      f"model and implementation differ on steps {c['keys']}: implementation gives {o['validate']}",
                                      dict(case={k: c[k] for k in ("det", "pipe", "keys")}, observed=o["validate"])))
-        for n, clause in ((1, "validate_silent"), (2, "validate_refused")):
+        for n, clause in ((1, "validate_silent"), (2, "validate_refused"), (3, "sweep_ran")):
             for i in core.parse_int_list(evals[n]):
                 c, o = chunk[i]
                 ctx.violations.append(validate_violation(ctx, c, o, clause))
     for c, o in pairs:
         ctx.count("evaluations")
+        if o.get("ran") is not None:
+            ctx.dist("sweep_run", c.get("mode", "product") + ":" + ("completed" if "ok" in o["ran"] else
+                                                                     f"{o['ran']['raise']} after {min(o['ran']['calls'], 1)}+ model calls"
+                                                                     if o["ran"]["calls"] else o["ran"]["raise"] + " before any model"))
         ctx.dist("validate_outcome", o["validate"] or "accepted")
         for kd in c["kinds"]:
             ctx.dist("step_key_kind", kd)
@@ -1034,6 +1058,10 @@ def validate_violation(ctx, c, o, clause) -> Violation:
     if clause == "validate_refused":
         sig["step_kind"] = "enabled_flag" if only_flag else "+".join(sorted(set(c["kinds"])))
     else:
+        if clause == "sweep_ran":
+            ran = o.get("ran") or {}
+            sig = dict(clause=clause, mode=c.get("mode", "product"),
+                       outcome="completed" if "ok" in ran else "raised_after_models_ran")
         # which of the accepted keys is not an enabled model's declared setting
         bad = set()
         for k in c["keys"]:
@@ -1047,7 +1075,13 @@ def validate_violation(ctx, c, o, clause) -> Violation:
                 if en is False:
                     bad.add("disabled_model")
         sig["offending"] = "+".join(sorted(bad)) or "unclassified"
-    return Violation(clause=clause, case={k: c[k] for k in ("op", "det", "pipe", "keys", "kinds", "step_enabled")},
+    case = {k: c[k] for k in ("op", "det", "pipe", "keys", "kinds", "step_enabled", "run", "mode") if k in c}
+    if clause == "sweep_ran":
+        return Violation(clause=clause, case=case, observed=dict(validate=o["validate"], ran=o.get("ran")),
+                         expected="a sweep with a key that is not an existing setting of an enabled model fails before any model executes",
+                         what=f"Observation.run_pipelines ({c.get('mode', 'product')}) on steps {c['keys']}: {o.get('ran')} "
+                              f"(validate_steps: {o['validate'] or 'accepted'})", sig=sig)
+    return Violation(clause=clause, case=case,
                      observed=o["validate"],
                      expected="an error iff some swept key is not an existing setting or belongs to a disabled model",
                      what=f"Observation.validate_steps on steps {c['keys']}: {clause} (implementation: {o['validate'] or 'accepted'})",
@@ -1195,7 +1229,7 @@ def replay(ctx: Ctx, rp: dict) -> int:
         o = core.run_driver(ctx, "c08", [case], workers=1)[0]
         print("implementation now:", o.get("validate"))
         ok, evals, se = core.coq_eval(ctx, "replay", emit_validate_file([(case, o)]))
-        bad = ok and (core.parse_int_list(evals[1]) != [] or core.parse_int_list(evals[2]) != [])
+        bad = ok and any(core.parse_int_list(evals[n]) != [] for n in (1, 2, 3))
     if not ok:
         print("case file did not evaluate:", core.tail(se, 10))
         return 1
